@@ -185,7 +185,7 @@ CASES["C03"] = [
     ("tile: bounds swapped", "mutant", AP, "new_bounds = self.bounds[:dim] + (tiled_bound, template_bound) + self.bounds[dim + 1 :]", "new_bounds = self.bounds[:dim] + (template_bound, tiled_bound) + self.bounds[dim + 1 :]", ["C03.tile-factor"]),
     ("tile: suffix not shifted", "mutant", AP, "+ tuple(AffineDimExpr(i + 1) for i in range(dim + 1, self.num_dims)),", "+ tuple(AffineDimExpr(i) for i in range(dim + 1, self.num_dims)),", ["C03.tile-factor"]),
     ("add_dim: bound 2", "mutant", AP, "new_bounds = (1,) + self.bounds", "new_bounds = (2,) + self.bounds", ["C03.add-dim"]),
-    ("canonicalize: different predicates", "mutant", AP, "bounds = [bound for bound in self.bounds if bound is None or bound > 1]", "bounds = [bound for bound in self.bounds if bound is None or bound > 2]", ["C03.drop-unit"]),
+    ("canonicalize: different predicates", "mutant", AP, "bounds = [bound for bound in self.bounds if bound != 1]", "bounds = [bound for bound in self.bounds if bound is None or bound > 2]", ["C03.drop-unit"]),
     ("clear_unused_dims: drops bound 2 as well", "mutant", AP,
      "        used_dims = tuple(i for i, bound in enumerate(pattern_bounds) if bound != 1)\n        return type(self)(\n            type(self._patterns[0])(\n                tuple(bound for bound in pattern_bounds if bound != 1),",
      "        used_dims = tuple(i for i, bound in enumerate(pattern_bounds) if bound > 2)\n        return type(self)(\n            type(self._patterns[0])(\n                tuple(bound for bound in pattern_bounds if bound > 2),", ["C03.drop-unit"]),
@@ -824,7 +824,7 @@ CASES["C11"] += [
 
 CASES["C19"] += [
     ("dynamic bounds dropped by AccessPattern.canonicalize", "mutant", "snaxc/ir/dart/access_pattern.py",
-     "self.pattern.A[:, [bound is None or bound > 1 for bound in self.bounds]]", "self.pattern.A[:, [bound is not None and bound > 1 for bound in self.bounds]]", ["C19.pattern-canon"]),
+     "self.pattern.A[:, [bound != 1 for bound in self.bounds]]", "self.pattern.A[:, [bound is not None and bound > 1 for bound in self.bounds]]", ["C19.pattern-canon"]),
     ("inner_dims slices bounds and columns differently", "mutant", "snaxc/ir/dart/access_pattern.py",
      "AffineTransform(self.pattern.A[:, -dim:], self.pattern.b),", "AffineTransform(self.pattern.A[:, :dim], self.pattern.b),", ["C19.inner-dims"]),
 ]
@@ -868,4 +868,11 @@ CASES["C13"] += [
 CASES["C02"] += [
     ("pointer shift left in elements while strides are scaled to bytes", "mutant", "snaxc/transforms/dart/dart_layout_resolution.py",
      "data_mem_map: AffineMap = memref_type.get_affine_map_in_bytes()", "data_mem_map: AffineMap = memref_type.get_affine_map()", ["C02.offset"]),
+]
+
+CASES["C19"] += [
+    ("reintroduce F-42 (canonicalize drops empty dimensions)", "mutant", "snaxc/ir/dart/access_pattern.py", "@revert:d1b10f0~1", "", ["C19.pattern-canon"]),
+]
+CASES["C03"] += [
+    ("reintroduce F-42 (canonicalize drops empty dimensions)", "mutant", "snaxc/ir/dart/access_pattern.py", "@revert:d1b10f0~1", "", ["C03.drop-unit"]),
 ]
